@@ -170,6 +170,107 @@ def check(recipe, ctx):
     ctx.outcome([exp[0], exp[1] if exp[0] == 'err' else None, repr(recipe['steps'])])
 
 
+# ---------------------------------------------------------------------------
+# user containers registered on a Glommer without a delete= handler: the handler is discovered from the type
+
+class EvictOnly(object):
+    """supports item read and item deletion, not item assignment"""
+    __slots__ = ('d',)
+
+    def __init__(self, d):
+        self.d = dict(d)
+
+    def __getitem__(self, k):
+        return self.d[k]
+
+    def __delitem__(self, k):
+        del self.d[k]
+
+    def __repr__(self):
+        return 'EvictOnly(%r)' % (self.d,)
+
+
+class DrainOnly(object):
+    """sequence-like: index read, index deletion and .index(), no item assignment"""
+    __slots__ = ('l',)
+
+    def __init__(self, l):
+        self.l = list(l)
+
+    def __getitem__(self, i):
+        return self.l[i]
+
+    def __delitem__(self, i):
+        del self.l[i]
+
+    def index(self, v):
+        return self.l.index(v)
+
+    def __repr__(self):
+        return 'DrainOnly(%r)' % (self.l,)
+
+
+class SetOnly(object):
+    """supports item assignment but not item deletion; plain attributes can be deleted"""
+    def __init__(self):
+        self.attr = 1
+        self.other = 2
+
+    def __setitem__(self, k, v):
+        self.__dict__[k] = v
+
+    def __repr__(self):
+        return 'SetOnly(%r)' % (sorted(self.__dict__),)
+
+
+def gen_registered(draw):
+    return {'kind': draw(st.sampled_from(['evict', 'drain', 'setonly'])),
+            'present': draw(st.booleans()), 'ignore_missing': draw(st.booleans()),
+            'spelling': draw(st.sampled_from(['str', 'path']))}
+
+
+def check_registered(recipe, ctx):
+    from glom import Glommer, Path
+    g = Glommer()
+    kind = recipe['kind']
+    if kind == 'evict':
+        box = EvictOnly({'k': 1, 'j': 2})
+        seg = 'k' if recipe['present'] else 'zz'
+        g.register(EvictOnly, get=lambda o, k: o[k])
+        expect = (lambda: box.d == ({'j': 2} if recipe['present'] else {'k': 1, 'j': 2}))
+    elif kind == 'drain':
+        box = DrainOnly([10, 11, 12])
+        seg = '1' if recipe['present'] else '7'
+        g.register(DrainOnly, get=lambda o, k: o[int(k)])
+        expect = (lambda: box.l == ([10, 12] if recipe['present'] else [10, 11, 12]))
+    else:
+        box = SetOnly()
+        seg = 'attr' if recipe['present'] else 'zz'
+        g.register(SetOnly)
+        expect = (lambda: sorted(box.__dict__) == (['other'] if recipe['present'] else ['attr', 'other']))
+    target = {'c': box}
+    spec = Delete('c.' + seg if recipe['spelling'] == 'str' else Path('c', seg), ignore_missing=recipe['ignore_missing'])
+    where = 'Glommer with %s registered (no delete= handler): glom(%r, %r)' % (type(box).__name__, target, spec)
+    ctx.nontrivial(True)
+    ctx.label('kind-' + kind, 'present' if recipe['present'] else 'absent')
+    try:
+        res = g.glom(target, spec)
+        err = None
+    except Exception as e:
+        err = e
+    if recipe['present'] or recipe['ignore_missing']:
+        if err is not None:
+            raise Mismatch('spurious-error', '%s: raised %s: %s' % (where, type(err).__name__, str(err).splitlines()[-1][:200]))
+        if res is not target:
+            raise Mismatch('wrong-return', where)
+    else:
+        if not isinstance(err, PathDeleteError):
+            raise Mismatch('wrong-error-class', '%s: the element is absent: expected PathDeleteError, got %r' % (where, err))
+    if not expect():
+        raise Mismatch('wrong-effect', '%s: container is now %r' % (where, box))
+    ctx.outcome([kind, recipe['present'], recipe['ignore_missing']])
+
+
 def gen_wild(draw):
     from . import c14
     r = c14.gen_mutate(draw)
@@ -188,4 +289,5 @@ SUBS = [
     Sub('delete', check, gen=gen, quick=5000, thorough=15000,
         floors={'exp-ok': 0.2, 'exp-err-final': 0.05, 'exp-err-parent': 0.05, 'spelling-str': 0.1, 'spelling-t': 0.02}),
     Sub('wild', check_wild, gen=gen_wild, quick=1500, thorough=5000, floors={'wild-2': 0.1, 'wild-3': 0.1}),
+    Sub('registered', check_registered, gen=gen_registered, quick=300, thorough=1000),
 ]
